@@ -168,9 +168,16 @@ def run(chk, prog):
     chk.used(dk)
     calls = [x for x in A.walk(dk["body"]) if x.get("callee") == "vfps::RFKickMap::_calcKick"]
     A.require(len(calls) == 1, "DynamicRFKickMap::_calcKick: forwarding call not found")
-    txt = [A.show(a).replace(" ", "") for a in calls[0]["args"]]
-    chk.check(txt == ["_next_modulation.front()[0]", "_next_modulation.front()[1]"], "R2", A.loc(dk, calls[0]),
+    sdk = I.scan(dk)
+    fc = [c for c in sdk.calls if c.callee == "vfps::RFKickMap::_calcKick"]
+    txt = [str(a).replace(" ", "") for a in fc[0].args]
+    chk.check(txt == ["front(_next_modulation)[0]", "front(_next_modulation)[1]"], "R2", A.loc(dk, calls[0]),
               "dynamic _calcKick passes (front()[0], front()[1]) as (phase, amplitude): %s" % txt, "DynamicRFKickMap::_calcKick:args:%s" % txt)
+    gdk = Fl.CFG(dk)
+    mn, mx = gdk.count_on_paths(Fl.is_call_to("vfps::RFKickMap::_calcKick"))
+    chk.check(mn == 1 and mx == 1, "R2", dk.where,
+              "dynamic _calcKick rebuilds the kick from the queued (phase, amplitude) exactly once on every path (min %s, max %s): "
+              "the kick applied in step k is the one recorded for step k" % (mn, mx), "DynamicRFKickMap::_calcKick:count:%s-%s" % (mn, mx))
     # main: modulation increment = configured frequency * dt
     sm = I.scan(mainf)
     rms = [a for a in sm.accesses if a.kind == "store" and a.base == "rf_mod_step" and a.idx is None]
